@@ -8,6 +8,11 @@ ids = [p["id"] for p in props]
 LANE_TECH = 'TLA+ (DQState.tla + Lane.tla, one action per atomic access) model-checked with TLC; bound to the code by (1) exhaustive function-level conformance of the real inline dq_state functions against the DQState operators, (2) word-level trace validation of every recorded dq_state access of hooked real executions, (3) the property evaluated on the recorded API order'
 LANE_NOTE = "Bounds: TLC explores 2 clients x 2 pool workers with 3-4 items per configuration (thorough: 4-item programs, ~1e6 states each); the root queue is a fair bag; real executions are seeded samples of schedules (perturbation injected inside the library's atomicity windows), not all of them; function-level conformance is exhaustive over the abstract dq_state domain for widths 1-3."
 CHECKS = {
+ "C07": dict(technique="TLA+ spec (Group.tla) model-checked with TLC + trace validation of hooked real executions (random histories plus a steered reproduction of finding F2) against the same actions + API oracles",
+   text="TLC explores every interleaving of 3 threads running bounded client programs (enter, leave, group_async, notify; NOW, timed and untimed waits; >= 2 generations; up to 2 notifiers) of a one-action-per-atomic transcription of dispatch_group (32-bit enter, 64-bit leave with carry into the generation, the CAS loop on the local old state, the notify MPSC list and its snapshot in _dispatch_group_wake, futex compare-and-sleep with spurious wakes and timeouts) and checks in every state: wait returns 0 only if the count was zero during the call, non-zero only after the timeout step, each notification submitted exactly once, not early except in the class of known finding F2, nothing left behind at a quiescent zero, reusability; liveness under fairness on the small programs; 5 spec mutants refuted. The property as stated (NotifyNotEarly) yields exactly the F2 counterexample class, which is also steered on the real library and reported as KNOWN-FINDING. Every recorded execution of the real library (dg_* atomics, notify-list links, futex probes, API events in one total order) must be a behaviour of the spec with all invariants evaluated in every state.",
+   note="Bounds as listed, at most 1 spurious wake; liveness on the larger programs reduced to the safety invariants NothingLeft/StuckFree; real time not modelled (driver checks elapsed >= timeout); futex semantics assumed; real executions are samples of schedules; F2 is a known finding (not small/safe to repair). An observation not judged: a notifier registered behind a first pusher that has not yet published HAS_NOTIFS can miss one zero transition and is delivered at the next.",
+   design_ref="7/C07, 9/F2"),
+
  "C12": dict(technique="TLA+ spec (Time.tla, TimeMC.tla, TimeEmit.tla) parametric in word width: TLC exhaustive at W=8, Apalache/Z3 on the same invariants at W=64; bound to the code by replaying TLC-emitted vectors (landmark-lifted to 64 bits) and Apalache witnesses on the real functions with clock_gettime interposed, plus the spec's reference evaluated as oracle on seeded random 64-bit inputs (the C oracle is compared row by row with TLC's exhaustive W=8 table on every run)",
    text="Time.tla transcribes dispatch_time, dispatch_walltime, _dispatch_timeout and the encode/decode helpers with explicit two's-complement wrap and, separately, the reference meaning the property states (same clock; exact shift, or FOREVER beyond the future, or an elapsed time on the same clock before the past; monotone; FOREVER absorbing; past implies zero timeout). TLC at W=8 enumerates every (base, delta) pair x 4 now values and every tv_sec x delta x several tv_nsec: the repaired algorithm meets the reference; the pinned tree's five defect classes (repaired by three fix: commits) are kept as switchable deviations shown violating; spec mutants are refuted. Apalache discharges the same invariants at W=64. 11340 lifted rows plus witnesses are replayed on the real code and >= 2.2e6 seeded random calls are judged by the reference.",
    note="Exhaustive at W=8; full domain at W=64 for the spec's transcription only (SMT); the real code is sampled apart from the lifted rows and witnesses. Assumes each clock reads a value in [1, 2^62-1]; x86-64 Linux where nano<->mach is the identity; signed overflow observed as wrap. An Apalache run that times out is recorded as stalled and never produces a verdict.",
